@@ -1693,7 +1693,7 @@ fn process_stream_search_params<T: Read + Write>(
         i += 1;
     }
     let next_search_idx = if i < stream_msgs_len {
-        Some(i + 1)
+        Some(i) // i was incremented already after the last match
     } else {
         None
     };
